@@ -276,7 +276,7 @@ class Net:
         self.ops.append((idx, kind, tr.id if tr is not None else None, call))
         self.log(kind + ".call", tr=tr.id if tr is not None else None, op=idx, **kw)
         fault = self.faults.get(idx)
-        if fault is not None and fault not in FAULTS_FOR[kind]:
+        if fault is not None and fault not in FAULTS_FOR[kind] and not (kind == "write" and fault == "WriteErrorSoft"):
             fault = None
         return idx, fault
 
@@ -300,6 +300,8 @@ class Net:
             "WriteError": httpcore.WriteError,
             "WriteTimeout": httpcore.WriteTimeout,
             "PartialWrite": httpcore.WriteError,
+            # a write that fails while the peer's bytes can still be read (it has answered already and stopped listening)
+            "WriteErrorSoft": httpcore.WriteError,
         }[fault]
         raise exc(f"injected {fault} at op {idx}")
 
